@@ -417,15 +417,29 @@ class _Runner:
         o, a = self.pcs[p], self.pcs[1 - p]
         step = "createOffer"
         try:
+            peek = self.case.get("peek")
+            if peek:
+                # the application looks at an offer first (createOffer must not change what the next one contains) ...
+                step = "createOffer (inspected only)"
+                await o.createOffer()
+                step = "createOffer"
             offer = await o.createOffer()
             step = "setLocal(offer)"
-            await o.setLocalDescription(offer)
+            if peek == "implicit":
+                await o.setLocalDescription()        # ... and may then let setLocalDescription() create it itself
+            else:
+                await o.setLocalDescription(offer)
             step = "setRemote(offer)"
             await a.setRemoteDescription(o.localDescription)
             step = "createAnswer"
+            if peek:
+                await a.createAnswer()
             answer = await a.createAnswer()
             step = "setLocal(answer)"
-            await a.setLocalDescription(answer)
+            if peek == "implicit":
+                await a.setLocalDescription()
+            else:
+                await a.setLocalDescription(answer)
             step = "setRemote(answer)"
             if self.case.get("late") and not wait_before:
                 await asyncio.sleep(LATE_S)     # signalling latency: the answer reaches the offerer a little late
@@ -667,6 +681,8 @@ def gen_case(rng):
                 ops.append("R:%d:%d:%s" % (q, rng.randrange(len(k)), rng.choice(DIRS)))
         ops.append("N:%d" % who)
     case = {"pa": rng.choice(POLICIES), "pb": rng.choice(POLICIES), "ops": ops}
+    if rng.random() < 0.25:
+        case["peek"] = rng.choice(["twice", "implicit"])
     if sum(1 for o in ops if o.startswith("N:")) > 1 and rng.random() < 0.5:
         case["nowait"] = True
         if rng.random() < 0.5:
@@ -795,6 +811,9 @@ def systematic():
             out.append({"pa": pa, "pb": pb, "nowait": True, "ops": ["D:0", "N:0", "T:0:video:sendrecv:1", "N:0"]})
             out.append({"pa": pa, "pb": pb, "nowait": True, "ops": ["D:0", "K:0:audio", "N:0", "K:1:video", "N:1"]})
             out.append({"pa": pa, "pb": pb, "nowait": True, "late": True, "ops": ["D:0", "N:0", "N:1"]})
+            # offers / answers created twice (inspected first), applied explicitly or created again by setLocalDescription()
+            out.append({"pa": pa, "pb": pb, "peek": "implicit", "ops": ["D:0", "K:0:audio", "N:0"]})
+            out.append({"pa": pa, "pb": pb, "peek": "twice", "ops": ["D:0", "N:0", "K:1:video", "N:1"]})
             # ... and the FIRST data channel added by a follow-up issued while the media-only session is still connecting
             out.append({"pa": pa, "pb": pb, "nowait": True, "ops": ["T:0:audio:sendrecv:0", "N:0", "D:0", "N:0"]})
             out.append({"pa": pa, "pb": pb, "nowait": True, "late": True, "ops": ["K:0:video", "N:0", "D:1", "N:1"]})
@@ -942,7 +961,7 @@ class Exchange(Component):
                                          ":nowait" if case.get("nowait") else "")
         dc = any(op.startswith("D:") for op in case["ops"])
         pref = any(op.startswith("C:") for op in case["ops"])
-        return "ok:n%d%s%s%s%s:%s/%s" % (n, (":nowait+late" if case.get("late") else ":nowait") if case.get("nowait") else "", ":swap" if swap else "", ":dc" if dc else "", ":pref" if pref else "",
+        return "ok:n%d%s%s%s%s:%s/%s" % (n, ((":nowait+late" if case.get("late") else ":nowait") if case.get("nowait") else "") + (":peek" if case.get("peek") else ""), ":swap" if swap else "", ":dc" if dc else "", ":pref" if pref else "",
                                       case["pa"], case["pb"])
 
     def nontrivial(self, case, impl_out):
